@@ -2,7 +2,7 @@
 set -e
 D=$(cd "$(dirname "$0")/.." && pwd)
 mkdir -p "$D/build/lib" "$D/build/obj"
-cc -c -O1 -o "$D/build/obj/starknet_rs.o" "$D/stubs/starknet_rs.c"
-cc -c -O1 -o "$D/build/obj/starknet_compiler_rs.o" "$D/stubs/starknet_compiler_rs.c"
+cc -c -O1 -fPIC -o "$D/build/obj/starknet_rs.o" "$D/stubs/starknet_rs.c"
+cc -c -O1 -fPIC -o "$D/build/obj/starknet_compiler_rs.o" "$D/stubs/starknet_compiler_rs.c"
 ar rcs "$D/build/lib/libjuno_starknet_rs.a" "$D/build/obj/starknet_rs.o"
 ar rcs "$D/build/lib/libjuno_starknet_compiler_rs.a" "$D/build/obj/starknet_compiler_rs.o"
